@@ -254,9 +254,63 @@ def king_en_prise_family(r, n):
     return out
 
 
+def ep_block_family(r, n):
+    """Start positions (no history) with an en-passant square where the side to move is in check by a line piece whose
+    line runs THROUGH the en-passant target square: capturing en passant blocks the check and is legal. (After a played
+    double step such a check cannot arise — the line was open before — but a start position may be given like this.)"""
+    out = []
+    tries = 0
+    while len(out) < n and tries < 80 * n:
+        tries += 1
+        c = r.randrange(8)
+        a = c + r.choice([-1, 1])
+        if not 0 <= a < 8:
+            continue
+        board = {(3, c): "P", (3, a): "p"}          # White has "just played" c2-c4; target square (2, c)
+        dr, dc = r.choice([(0, 1), (0, -1), (1, 1), (1, -1), (-1, 1), (-1, -1)])
+        k, m = r.randint(1, 5), r.randint(1, 5)
+        s = (2 - k * dr, c - k * dc)                # the white line piece
+        kg = (2 + m * dr, c + m * dc)               # the black king, on the other side of the target square
+        if not all(0 <= x < 8 for x in s + kg) or s in board or kg in board:
+            continue
+        line = [(2 + i * dr, c + i * dc) for i in range(-k + 1, m) ]
+        if any(q in board for q in line) or (1, c) in line:
+            pass
+        if any(q in board for q in line):
+            continue
+        board[s] = r.choice(["Q", "R" if dr == 0 else "B"])
+        board[kg] = "k"
+        if (1, c) in board or (2, c) in board:
+            continue
+        wk = next((q for q in [(0, 0), (0, 7), (7, 0), (7, 7), (0, 3), (5, 7), (5, 0)] if q not in board and max(abs(q[0] - kg[0]), abs(q[1] - kg[1])) > 1
+                   and q not in line and q != (1, c)), None)
+        if wk is None:
+            continue
+        board[wk] = "K"
+        white = r.random() < 0.5                    # mirror: the side that double-stepped is Black
+        rows = []
+        for row in range(7, -1, -1):
+            s_, e = "", 0
+            for col in range(8):
+                ch = board.get((row, col)) if white else board.get((7 - row, col))
+                if ch and not white:
+                    ch = ch.swapcase()
+                if ch:
+                    s_ += (str(e) if e else "") + ch
+                    e = 0
+                else:
+                    e += 1
+            rows.append(s_ + (str(e) if e else ""))
+        out.append("/".join(rows) + (" b - " if white else " w - ") + "abcdefgh"[c] + ("3" if white else "6") + " 0 1")
+    return out
+
+
 def gen_cases(seed, salt, n_cases, plies):
     r = core.rng(seed, salt)
     cases = []
+    if salt in ("C01", "C03", "C11"):
+        for f in ep_block_family(core.rng(seed, salt + "epblock"), 40 if n_cases < 1000 else 1500):
+            cases.append(["new " + f, "obs", "moves c", "obs", "moves u", "obs", "pushbias %d" % r.randrange(1 << 30), "obs", "moves c", "obs"])
     if salt == "C03":
         for f in king_en_prise_family(core.rng(seed, salt + "kingcap"), 40 if n_cases < 1000 else 1500):
             ops = ["new " + f, "obs", "moves u", "obs"]
